@@ -19,6 +19,33 @@ mod syntax_sugar_remover;
 
 pub use parser_logic::parse_definition;
 
+/// Verification hooks: read-only access to the comment stripper, the
+/// single-file parser, the desugarer and the include stack.
+#[cfg(circomspect_verif)]
+pub mod verif {
+    pub use crate::include_logic::FileStack;
+    pub use crate::parser_logic::{parse_file as parse_source, preprocess};
+    use program_structure::file_definition::FileLibrary;
+    use program_structure::function_data::FunctionData;
+    use program_structure::report::ReportCollection;
+    use program_structure::template_data::TemplateData;
+    use std::collections::HashMap;
+
+    pub fn remove_syntactic_sugar(
+        templates: &HashMap<String, TemplateData>,
+        functions: &HashMap<String, FunctionData>,
+        file_library: &FileLibrary,
+        reports: &mut ReportCollection,
+    ) -> (HashMap<String, TemplateData>, HashMap<String, FunctionData>) {
+        crate::syntax_sugar_remover::remove_syntactic_sugar(
+            templates,
+            functions,
+            file_library,
+            reports,
+        )
+    }
+}
+
 use include_logic::FileStack;
 use program_structure::ast::{Version, AST};
 use program_structure::report::{Report, ReportCollection};
